@@ -23,7 +23,9 @@ What is mirrored, statement by statement:
   [fix b007ad3, `Fixes.d4b`]; id 0 → `CallWithSerialize(… nil)`: undecodable payload →
   nothing, else the handler body runs and nobody is told; id ≠ 0 →
   `CallWithSerialize(… cb)`: undecodable payload → completion(error), else the handler
-  body runs and completes once (a panic is turned into completion(error) by `SafeCall`).
+  body runs and completes once (a panic is turned into completion(error) by `SafeCall`; a
+  panic AFTER a completion that went through is not — `CallMethod`'s `completed` flag, fix 7b326e6;
+  section "the synchronous frame": `callMethod`, tied to `behResult` by `behResult_is_callMethod`).
 * `Forward`: `RoutePID(type, session)` = route function outcome looked up in the
   directory ("" or unknown name → nil); nil → error response for a request
   [fix d38d6e3, `Fixes.d4a`], nothing for a notify; id 0 → `sys.notify`; else `sys.call`
@@ -47,7 +49,8 @@ What is mirrored, statement by statement:
   scan, i.e. in (30 s, 31 s]; a reply arriving later finds no entry and is dropped.
 
 Modelled, not verified (parameters): the handler table (shape + behaviour of each
-method; behaviours complete exactly once — `ok`, `fail`, `panic`, `slow`/`late`
+method; behaviours call their completion function at most once and complete or panic — `ok`, `fail`, `panic`,
+`okboom` (complete, then panic), `mboom` (the completion function panics on the result), `slow`/`late`
 = `ok` after 2 s / 42 s through the service's timer, `near`/`over` = `ok` after 29 s / 33 s (just inside /
 just outside the 30 s request timeout), `unser` = completes with a value the client
 serializer cannot marshal), the route function outcome
@@ -66,8 +69,11 @@ namespace Cell2v.ClientServe
 inductive Shape | request | notify
   deriving DecidableEq, Repr
 
-/-- what a handler body does; every behaviour completes exactly once when given a completion -/
-inductive Beh | ok | fail | panic | slow | late | unser | near | over
+/-- what a handler body does.  `okboom`: completes, then panics in the same frame; `mboom`: completes
+with a value on which the completion function itself panics (the serializer's `Marshal` panics) —
+for both `CallMethod`/`SafeCall` (section "the synchronous frame" below) make the outcome exactly one
+completion.  No member never completes or calls its completion function twice. -/
+inductive Beh | ok | fail | panic | slow | late | unser | near | over | okboom | mboom
   deriving DecidableEq, Repr
 
 structure Handler where
@@ -203,6 +209,64 @@ def behResult (svc g m : String) (v : Nat) : Beh → Nat × Result
   | .unser => (0, .unser)
   | .near => (nearMs, .data svc g m v)
   | .over => (overMs, .data svc g m v)
+  | .okboom => (0, .data svc g m v)     -- the completion went through; SafeCall does not complete again (7b326e6)
+  | .mboom => (0, .error)               -- the completion panicked before writing: SafeCall completes with "panic in rpc"
+
+/-! ## the synchronous frame of a request handler: `APIContainer.CallMethod` + `SafeCall`
+
+    completed := false
+    handlerCB = func(e, result) { cbFunc(e, result); completed = true }     -- handed to the handler
+    panicCB   = func(e, result) { if !completed { cbFunc(e, result) } }     -- handed to SafeCall
+    SafeCall:  defer func() { if recover() != nil { CheckInvokeCBFunc(panicCB, "panic in rpc", nil) } }()
+               handler.Method.Func.Call(args)
+
+A handler body's frame is a list of acts.  `complete r thru`: the body calls its completion function
+with `r`; `thru = false` means the completion function `cbFunc` itself panics on `r` before it has
+written anything (front: `serializer.Marshal(ret)` in the closure of `Process`; back: the same call in
+the closure of `ProcessForwardMsg`) — the panic unwinds through the handler, `completed` stays false.
+`panic`: the body panics.  `guard = false` is the code before 7b326e6 (defect D23): the handler got
+`cbFunc` itself and `SafeCall` completed with `cbFunc` whenever the frame panicked. -/
+
+inductive Act
+  | complete (r : Result) (thru : Bool)
+  | panic
+  deriving DecidableEq, Repr
+
+structure Frame where
+  /-- the `completed` flag -/
+  completed : Bool := false
+  /-- the calls of `cbFunc` that went through, oldest first -/
+  calls : List Result := []
+  deriving DecidableEq, Repr
+
+/-- runs the body until it returns or panics; the `Bool` says that it panicked -/
+def runFrame : List Act → Frame → Frame × Bool
+  | [], f => (f, false)
+  | .panic :: _, f => (f, true)
+  | .complete r thru :: rest, f =>
+    if thru then runFrame rest ⟨true, f.calls ++ [r]⟩       -- cbFunc(e, result); completed = true
+    else (f, true)                                            -- cbFunc panicked: `completed = true` is not reached
+
+/-- every completion `cbFunc` receives for one `CallMethod` whose body's synchronous frame is `body` -/
+def callMethod (guard : Bool) (body : List Act) : List Result :=
+  let out := runFrame body {}
+  if out.2 = true ∧ ¬ (guard = true ∧ out.1.completed = true) then out.1.calls ++ [.error]   -- recover → panicCB
+  else out.1.calls
+
+/-- the synchronous frame of each behaviour of the zoo (`slow`, `late`, `near`, `over` return at once
+and complete later from the service's timer: an empty frame) -/
+def bodyOf (svc g m : String) (v : Nat) : Beh → List Act
+  | .ok => [.complete (.data svc g m v) true]
+  | .fail => [.complete .error true]
+  | .panic => [.panic]
+  | .unser => [.complete .unser true]
+  | .okboom => [.complete (.data svc g m v) true, .panic]
+  | .mboom => [.complete (.data svc g m v) false]
+  | .slow | .late | .near | .over => []
+
+def Beh.sync : Beh → Bool
+  | .slow | .late | .near | .over => false
+  | _ => true
 
 def tryCallCol (fx : Fixes) (c : Cfg) (svc type g m : String) (id : Nat) (pay : Payload) : CallRes :=
   match c.handlers type g m with
@@ -404,6 +468,12 @@ def zoo (g m : String) : Option Handler :=
   -- (without / with waiting for the push to be acknowledged) before it completes like `echo`; the
   -- bound id is stamped on later envelopes but nothing the client sees depends on it
   else if m = "login" ∨ m = "loginw" then some ⟨.request, .ok⟩
+  -- okboom: completes, then panics in the same frame; mboom: completes with a value whose MarshalJSON
+  -- panics; slowboom: completes after 2 s from the service's timer and panics right after (the timer
+  -- recovers): for everything a client or a handler log observes that is `slow`
+  else if m = "okboom" then some ⟨.request, .okboom⟩
+  else if m = "mboom" then some ⟨.request, .mboom⟩
+  else if m = "slowboom" then some ⟨.request, .slow⟩
   else if m = "tell" then some ⟨.notify, .ok⟩
   else none
 
@@ -412,15 +482,14 @@ def zoo (g m : String) : Option Handler :=
 timer (recovered and swallowed there) — it NEVER completes; for a forwarded request that is, for
 everything a client or a handler log can observe, a handler that completes after the request
 timeout (`late`): the client gets the timeout error.  `okboom`: completes, then panics in the same
-frame — `SafeCall` completes a second time with an error; the front relays the first reply and drops
-the second ("miss response"): for a forwarded request that is `ok`.  (Front-local, the same two
-handlers leave the client without any / with two responses — reproduced on the code, reported, not
-part of the run; see `Model/ClientShared.lean` events `lose` / `dup` for the proof that forwarded
-requests do not need the rule.) -/
+frame — since 7b326e6 `SafeCall` does not complete a second time (`Beh.okboom`; the same handler is
+also part of group `zoo` at every type).  (Front-local, `hang` leaves the client without any response
+— reproduced on the code, reported, not part of the run; see `Model/ClientShared.lean` events `lose` /
+`dup` for the proof that forwarded requests do not need the "exactly once" rule.) -/
 def zoob (g m : String) : Option Handler :=
   if g ≠ "zoob" then none
   else if m = "hang" then some ⟨.request, .late⟩
-  else if m = "okboom" then some ⟨.request, .ok⟩
+  else if m = "okboom" then some ⟨.request, .okboom⟩
   else none
 
 /-- node n1 (always Working): front `gate-1`, `chat-1`, `hall-1`, and `chat-9` which is listed in the
